@@ -41,7 +41,7 @@ def gen_pixels(rng, nd, shape):
 
 
 def generate(rng, tier):
-    n = 1000 if tier == "quick" else 16000
+    n = 1000 if tier == "quick" else 60000
     fams = ["probe", "probe_coupled", "fits_sep", "fits_cel", "fits_rot", "gwcs"]
     for _ in range(n):
         kind = rng.choice(["resampled", "resampled", "reordered", "compound", "compound"])
